@@ -36,6 +36,7 @@ def handle : List String → List String → Option String
     if !wf L.leaves then some "unspecified"
     else some (Driver.verdict (acceptsUnmarshal L.leaves b res)
       "the positional protocol reading (exact value for in-domain bytes; error or zero for out-of-domain bytes; error for a fixed-value mismatch; never a panic)")
+  | "alias" :: _, impl => some (Driver.expect "same" impl)
   | _, _ => none
 
 end Uhppote.Driver.SpecCodec
